@@ -229,8 +229,42 @@ def params_hook(ctx):
     V.sh([sys.executable, os.path.join(V.VERIF, "tools", "extract_params.py"), ctx.repo], check=True)
 
 
+RACE = ("inconsistent assumptions", "Cannot find a physical path")
+
+
+def coq_stage_retry(ctx):
+    """coq/Params_gen.vo is shared by all properties and may be rebuilt by another check between vcheck's `make` and its
+    `coqc` (two separately locked steps): a failure with that signature is a race, not a broken proof -- retry."""
+    import time
+    for attempt in range(5):
+        n = len(ctx.viol)
+        if V.coq_stage(ctx):
+            return True
+        log = (ctx.coq or {}).get("log", "")
+        if any(r in log for r in RACE) and attempt < 4:
+            del ctx.viol[n:]
+            ctx.log("Coq stage hit a concurrent rebuild of a shared library; retrying")
+            time.sleep(2 + 3 * attempt)
+            continue
+        return False
+    return False
+
+
+def build_model_retry(ctx):
+    import time
+    for attempt in range(5):
+        try:
+            return V.build_model(ctx)
+        except V.BuildError as e:
+            if any(r in str(e) for r in RACE) and attempt < 4:
+                ctx.log("model build hit a concurrent rebuild of a shared library; retrying")
+                time.sleep(2 + 3 * attempt)
+                continue
+            raise
+
+
 def build(ctx):
-    model = V.build_model(ctx)
+    model = build_model_retry(ctx)
     impl, impl_mb = V.cxx_many(ctx, [
         dict(srcs=HARNESS, out=ctx.path("impl"), mpi=True, opt="-O1"),
         dict(srcs=HARNESS, out=ctx.path("impl_mb"), mpi=True, opt="-O1", flags=["-DDUNE_PARALLEL_MAX_COMMUNICATION_BUFFER_SIZE=%d" % MACRO_BUF]),
@@ -240,7 +274,7 @@ def build(ctx):
 
 def run(ctx):
     ctx.params_hook = params_hook
-    V.coq_stage(ctx)
+    coq_stage_retry(ctx)
     model, (impl, impl_mb) = build(ctx)
     quick = ctx.quick
     NP = 4 if quick else 6
@@ -294,11 +328,15 @@ def run(ctx):
             if is_hang(l2): cov["hang_cases_confirmed"] += 1
             mio[i] = l2
     shim = [a + b for a, b in zip(shim, shim2)]
-    cases = stage1_cases + cases + mcases
-    io = stage1_impl + io + mio
+    # two cases outside the precondition (index larger than the buffer): variable (peer hangs) and fixed (no send at all)
+    pcases = ["2 1 0 2 0 1 2 0 1 1 0 0 1 0 0 1 0 3 0 0 0 0", "2 0 0 2 0 1 2 0 1 1 0 0 1 0 0 1 0 3 3 0 0 0"]
+    precond_set = set(pcases)
+    pio, _ = run_impl(ctx, impl, NP, pcases, "implpre", case_timeout=5)
+    cases = stage1_cases + cases + mcases + pcases
+    io = stage1_impl + io + mio + pio
     mo = V.run_cases(ctx, [model], cases, tag="model", timeout=900)
 
-    nviol = ndis = ndrift = 0
+    nviol = ndis = ndrift = nprecond = 0
     match_cur = match_new = discriminating = 0
     feats, dist = {}, {"mode": {}, "dir": {}, "P": {}, "buf": {}, "api_path": {}, "data_type": {}, "macro_buffer": {}}
     rounds_hist = {}
@@ -310,10 +348,24 @@ def run(ctx):
             dist[k][str(v)] = dist[k].get(str(v), 0) + 1
         for f in features(pc): feats[f] = feats.get(f, 0) + 1
         parts = m.split(" ## ")
-        if len(parts) != 3:
+        if len(parts) != 4:
             ctx.violation("corr:C06/model-output", {"broken": "corr:C06/model-output", "case": c, "model": m}, found_input=False); ndis += 1
             continue
-        cur, new, spec = parts
+        cur, new, spec, pre = parts
+        if c in precond_set:
+            # outside the property's precondition (an index larger than the buffer): the theorem C06_oversize_not_rejected
+            # says the code does not reject it and does not return; no oracle verdict, only correspondence
+            nprecond += 1
+            if pre != "pre=0" or not is_hang(new):
+                ctx.violation("corr:C06/precondition-stream", {"broken": "precondition predicate / model on an oversize case", "case": c, "model": m}, found_input=False); ndis += 1
+            elif not (is_hang(a) or a.startswith("CRASH")):
+                ndis += 1
+                ctx.violation("corr:C06/oversize", {"broken": "corr:C06/oversize (model: an index larger than the buffer is never sent and the peer never returns; the tree now behaves differently)",
+                                                    "case": c, "impl": a, "model": new}, found_input=False)
+            continue
+        if pre != "pre=1":
+            ctx.violation("corr:C06/generator-precondition", {"broken": "generated case violates c06_case_ok (generator and executable precondition disagree)", "case": c, "model": m}, found_input=False); ndis += 1
+            continue
         if any(sum(z) > 0 for _, _, z in links_of(pc)): nontrivial.add(c)
         for mm in re.finditer(r" \d+>\d+:([\d.]+)", new.split(" ||")[1] if " ||" in new else ""):
             k = len(mm.group(1).split(".")); rounds_hist[k] = rounds_hist.get(k, 0) + 1
@@ -363,7 +415,7 @@ def run(ctx):
                 "While the tree hangs on all-zero interfaces (F-C06-1 open) only the corpus witnesses exercise them." % (NP, MACRO_BUF),
         "samples": cases[:2] + cases[len(cases) // 2: len(cases) // 2 + 2] + cases[-1:],
         "distribution": dist, "features_hit": feats, "messages_per_link_histogram": {str(k): v for k, v in sorted(rounds_hist.items())},
-        "impl_model_disagreements": ndis, "oracle_rejections": nviol, "deep_stream_drift": ndrift,
+        "impl_model_disagreements": ndis, "oracle_rejections": nviol, "precondition_violating_cases": nprecond, "deep_stream_drift": ndrift,
         "tree_matches_model_variant": variant, "discriminating_cases": discriminating,
         "pmpi_shim": {"perturbed_sweeps": shim[0], "calls_reporting_out_of_index_order": shim[1], "delays": shim[2]},
         "traces_validated_against_impl": sum(1 for a in io if not (a.startswith("NOT-RUN") or a.startswith("CRASH"))),
